@@ -733,6 +733,11 @@ fn mode_spy(j: &mut Judge) {
         let queue = if faults { Some(r.range(1, 3) as usize) } else { None };
         let (rx, sink) = if default_cap && queue.is_none() { BufferedSpyMetricSink::new() } else { BufferedSpyMetricSink::with_capacity(queue, if default_cap { None } else { Some(cap) }) };
         let nops = r.range(5, 80) as usize;
+        let reuse_buffer = cs % 2 == 0;
+        let mut line_buf = String::with_capacity(8192);
+        if reuse_buffer {
+            j.rep.obs("spy_histories_emitting_from_one_reused_string_buffer", 1);
+        }
         let mut calls: Vec<(Op, Res, usize)> = Vec::new();
         let mut arrived: Vec<Vec<u8>> = Vec::new();
         let mut fill_hint = 0usize;
@@ -764,8 +769,16 @@ fn mode_spy(j: &mut Judge) {
                 }
                 // (ASCII metrics only: the sink takes a &str, and a newline must not cut a multi-byte character)
                 let m = if k % 3 != 0 { with_terminator_inside(&mut r, unique_metric(k, len), b"\n") } else { unique_metric(k, len) };
-                let ms = String::from_utf8(m.clone()).unwrap();
-                (Op::Emit(m), io_res_emit(panics::guard(|| sink.emit(&ms))))
+                // every other history formats all its metrics into ONE reused String (same address, often the same
+                // length, different content): a sink has no business remembering a buffer it was lent
+                if reuse_buffer {
+                    line_buf.clear();
+                    line_buf.push_str(std::str::from_utf8(&m).unwrap());
+                    (Op::Emit(m), io_res_emit(panics::guard(|| sink.emit(&line_buf))))
+                } else {
+                    let ms = String::from_utf8(m.clone()).unwrap();
+                    (Op::Emit(m), io_res_emit(panics::guard(|| sink.emit(&ms))))
+                }
             };
             let after = rx.len();
             let panicked = matches!(res, Res::Panicked(_));
